@@ -34,6 +34,8 @@ TEXTS = [
     'word. next? $x$ C-C-C. D-D-D',
     'wir so\ndass es so\t dass z.B.\nz.B.',
     'et\tal. one\n\ttwo   three',
+    'loci.e. and i.e. max-ray x-ray tube, I don\'t sodon\'t',
+    'so  dass so\n   dass one  two\n three A  B\tC',
 ]
 RULES = [
     ['so dass & sodass'],
@@ -49,6 +51,9 @@ RULES = [
     ['C-C-C. & E', '$x$ & y', 'word. & w'],
     ['dass & dass dass', 'so & so so'],
     ['x & xx', 'xx & x'],
+    ['so dass & so_dass', 'et al. & et_al.', 'one two three & one-two-three'],
+    ['A B C & X Y Z', 'z.B. & z.B.', 'two three & 2 3 4 5 6'],
+    ['i.e. & that is', 'x-ray & XRAY', "don't & do not"],
 ]
 
 
